@@ -88,6 +88,12 @@ func (r *runner) runCase(lines []string, cs *caseStats) (*failure, error) {
 			cs.ops[f[0]]++
 			cs.results[f[0]+"="+strings.Fields(gout + " _")[0]]++
 		}
+		if r.w.modelOff {
+			if fl := r.oracleOnly(l, i, gout, cs); fl != nil || r.w.dead {
+				return fl, nil
+			}
+			continue
+		}
 		if gout == "crash-revert" {
 			// RevertToSnapshot refused a snapshot id the model knows: C09's subject (revision bookkeeping),
 			// not a C08 observation. The case ends here.
@@ -183,6 +189,8 @@ type gen struct {
 	acc, val []int // shadow of validRevisions / valValidRevisions ids under the unrepaired bookkeeping (C09)
 	nextID   int
 	mal      bool
+	eb       bool   // this case also runs the real end-of-block hook (oracle-only from the first such op on)
+	height   uint64 // block height of the next endblock op
 }
 
 func (g *gen) exists(id int) bool { return g.rn.w.st.GetValidatorByMainAddr(vaddr(id)) != nil }
@@ -199,8 +207,40 @@ func (g *gen) someVal() int {
 	return ex[g.r.Intn(len(ex))]
 }
 
+// endBlockOp: the real staking.EndBlock at ordinary and period-end heights, with activity marks around the
+// inactivity threshold so that some online chamber validators are slashed, others not, and expelled ones recover.
+func (g *gen) endBlockOp() string {
+	r := g.r
+	if r.Chance(35) {
+		a := g.someVal()
+		back := uint64(r.Range(0, 70))
+		n := uint64(1)
+		if g.height > back {
+			n = g.height - back
+		}
+		return fmt.Sprintf("lastactive %d %d", a, n)
+	}
+	g.height += uint64(r.Range(1, 24))
+	if r.Chance(70) {
+		g.height = ((g.height+1+15)/16)*16 - 1 // last block of a staking period
+	}
+	// proposer: prefer an online validator
+	cb := g.someVal()
+	for id := 1; id <= NV; id++ {
+		k := (id+int(r.U64()%NV))%NV + 1
+		if v := g.rn.w.st.GetValidatorByMainAddr(vaddr(k)); v != nil && v.IsOnline() {
+			cb = k
+			break
+		}
+	}
+	return fmt.Sprintf("endblock %d %d %d %d", g.height, cb, boolInt(r.Chance(10)), []int{0, 0, 1000000}[r.Intn(3)])
+}
+
 func (g *gen) next() string {
 	r := g.r
+	if g.eb && r.Chance(22) {
+		return g.endBlockOp()
+	}
 	w := []int{8, 10, 3, 6, 8, 7, 6, 8, 8, 4, 5, 4, 6, 5, 3, 4, 3, 2, 3}
 	//          cr up us mk dp wd cs da ds dl pn st sn rv fi ir rl cp mal
 	if !g.mal {
@@ -468,6 +508,8 @@ func run(c *vh.Ctx) error {
 	for ci := 0; ci < n; ci++ {
 		r := c.R.Fork()
 		g := &gen{r: r, rn: rn, mal: r.Chance(20)}
+		g.eb = !g.mal && r.Chance(30)
+		g.height = uint64(1000 + r.Intn(40))
 		cs := &caseStats{ops: map[string]int{}, results: map[string]int{}}
 		cfg := genCfg(r)
 		nops := r.Range(6, 45)
@@ -527,6 +569,9 @@ func run(c *vh.Ctx) error {
 		res.DistN("ops-applied", cs.applied)
 		res.DistN("ops-skipped-inapplicable", cs.skipped)
 		res.DistN("oracle-evaluations", cs.oracleEvals)
+		if g.eb {
+			res.Dist("cases-with-real-EndBlock-hook")
+		}
 		if g.mal {
 			res.Dist("cases-malformed-stream")
 		} else {
@@ -602,6 +647,9 @@ func (r *runner) stepOne(l string, i int, cs *caseStats) (*failure, error) {
 	cs.applied++
 	cs.ops[f[0]]++
 	cs.results[f[0]+"="+strings.Fields(gout + " _")[0]]++
+	if r.w.modelOff {
+		return r.oracleOnly(l, i, gout, cs), nil
+	}
 	m, err := r.ask(l)
 	if err != nil {
 		return nil, err
@@ -633,6 +681,24 @@ func (r *runner) stepOne(l string, i int, cs *caseStats) (*failure, error) {
 	}
 	cs.oracleEvals++
 	return nil, nil
+}
+
+// oracleOnly handles an op of the oracle-only part of a case (after the first endblock/lastactive op).
+func (r *runner) oracleOnly(l string, i int, gout string, cs *caseStats) *failure {
+	if gout == "crash" {
+		r.w.dead = true
+		if strings.HasPrefix(l, "endblock") {
+			return &failure{"oracle", fmt.Sprintf("op %d `%s`: the real end-of-block hook panicked on a state satisfying the property: %s", i, l, r.w.lastPanic), i}
+		}
+		return nil
+	}
+	if bad := r.w.oracle(); bad != "" {
+		return &failure{"oracle", fmt.Sprintf("after op %d `%s`: %s", i, l, bad), i}
+	}
+	if cs != nil {
+		cs.oracleEvals++
+	}
+	return nil
 }
 
 // ---------------------------------------------------------------------------------------------
